@@ -14,9 +14,23 @@
                   differ from their own hash; the reference script kind is one adapter x handles (script_supported) and,
                   for Blockfrost/Kupo, is filed under its blake2b-224 hash H (version byte ++ bytes)
      H            blake2b-224, a parameter: no property of it is used except on the script at hand
-   Unbounded: any number of UTxOs, policies, names; any name length 0..32; any quantities (N). *)
+   Unbounded: any number of UTxOs, policies, names; any name length 0..32; any quantities (N).
+
+   Repeated queries of ONE adapter instance while the service's answers change (PyC.AdaptersSeq):
+     op           what happens next: OTick dt (clock, ticks of 1/1024 s) | OBlock slot w (a block: new tip slot, new ledger
+                  state w) | OQuery a (`utxos(a)`) | OTip (`last_block_slot`) | OPoll (`_is_chain_tip_updated()`)
+     cfg          how the adapter is built: c_cached (answers go through `_utxo_cache`, a TTL/LRU cache keyed by
+                  (last_block_slot, address)), c_memo_ttl (ttl of the `last_block_slot` memo: 1024 ticks for Ogmios v5/v6
+                  and cardano-cli, 0 when the tip is read live), c_interval (refetch_chain_tip_interval = ttl of the cache),
+                  c_max (utxo_cache_size), c_poll; svc_cfg x interval max = the configuration of adapter x
+     run          the state machine (memo, cache with expiry and LRU eviction, `_last_chain_tip_fetch`,
+                  `_last_known_block_slot`); one event per operation: clock, tip slot and ledger state of the SERVICE after it,
+                  and what the client observed
+     fetch w a    what asking the service now gives when its ledger state is w (for the adapters: parse_X (render_X a (w a)))
+     increasing   every block carries a larger tip slot than the one before *)
 From Coq Require Import NArith ZArith Ascii String List Bool Permutation.
 From PyC Require Import Base Cbor Dict Value Json Adapters AdaptersProofs AdaptersOracle.
+From PyC Require Import AdaptersSeq AdaptersSeqProofs AdaptersSeqOracle.
 Import ListNotations.
 Open Scope string_scope.
 Open Scope list_scope.
@@ -169,3 +183,76 @@ Theorem C20_cli_datum_map_key_refuted :
              PMap [(PInt 1, PInt 2)] <> PMap [(PInt 1, PInt 1); (PInt 1, PInt 2)]).
 Proof. exact cli_datum_map_key_refuted. Qed.
 Print Assumptions C20_cli_datum_map_key_refuted.
+
+(* ================= state carried across calls of one adapter instance =================
+   MAIN (any configuration, any run with increasing tip slots): an answer of utxos(a) is the service's answer for its
+   CURRENT ledger state, or for a ledger state that was current at an earlier event of the run less than c_memo_ttl
+   (the ttl of the `last_block_slot` memo: 1 s) before the query.  The refetch interval and the cache size do not occur:
+   however long entries live in the cache, they are never served after the tip has been seen to move. *)
+Theorem C20_seq_fresh : forall (W A : Type) (fetch : W -> string -> A) (cacheable : A -> bool) (c : cfg)
+    (ops : list (op W)) (now sl : N) (w : W),
+  increasing sl ops ->
+  forall pre e post a r,
+    run W A fetch cacheable c ops (init now sl w) = pre ++ e :: post -> ev_obs e = OAnswer a r ->
+    r = fetch (ev_w e) a \/
+    exists e', In e' pre /\ (ev_time e < ev_time e' + c_memo_ttl c)%N /\ r = fetch (ev_w e') a.
+Proof. exact run_fresh. Qed.
+Print Assumptions C20_seq_fresh.
+
+(* tip read live (Kupo over such a backend) or nothing cached (Blockfrost): always the CURRENT answer *)
+Theorem C20_seq_current : forall (W A : Type) (fetch : W -> string -> A) (cacheable : A -> bool) (c : cfg)
+    (ops : list (op W)) (now sl : N) (w : W),
+  increasing sl ops -> (c_memo_ttl c = 0%N \/ c_cached c = false) ->
+  forall pre e post a r,
+    run W A fetch cacheable c ops (init now sl w) = pre ++ e :: post -> ev_obs e = OAnswer a r ->
+    r = fetch (ev_w e) a.
+Proof. exact run_current. Qed.
+Print Assumptions C20_seq_current.
+
+Theorem C20_seq_current_kupo_blockfrost : forall interval max,
+  c_memo_ttl (svc_cfg Kupo interval max) = 0%N /\ c_cached (svc_cfg Blockfrost interval max) = false /\
+  c_memo_ttl (svc_cfg OgmiosV5 interval max) = 1024%N /\ c_memo_ttl (svc_cfg OgmiosV6 interval max) = 1024%N /\
+  c_memo_ttl (svc_cfg Cli interval max) = 1024%N.
+Proof. intros. repeat split. Qed.
+Print Assumptions C20_seq_current_kupo_blockfrost.
+
+(* composed with C20_adapters: every answer in a run is Ok and faithful, UTxO by UTxO, to the ledger state (address ->
+   UTxO models) of the query's own event or of an event less than the memo's ttl earlier *)
+Theorem C20_seq_adapters : forall (H : bytes -> bytes) x (c : cfg) (ops : list (op (string -> list utxo_model))) now sl w,
+  increasing sl ops ->
+  (forall w', In w' (w :: blocks ops) -> forall a, Forall (wf_utxo H x) (w' a) /\ aux_ok x a (w' a)) ->
+  forall pre e post a r,
+    run _ _ (ufetch H x) is_ok c ops (init now sl w) = pre ++ e :: post -> ev_obs e = OAnswer a r ->
+    exists e', (e' = e \/ In e' pre /\ (ev_time e < ev_time e' + c_memo_ttl c)%N) /\
+               exists outs, r = Ok outs /\ Forall2 (faithful x a) (ev_w e' a) outs.
+Proof. exact seq_adapters_faithful. Qed.
+Print Assumptions C20_seq_adapters.
+
+(* the bound is tight: 0.5 s after a block an Ogmios/cardano-cli adapter may still give the previous ledger state's
+   answer (5), and gives the new one (7) after another 0.5 s; Kupo over a live tip gives 7 at once *)
+Theorem C20_seq_stale_within_memo :
+  let ops := [OQuery "a"; OBlock 2%N 7%N; OTick 512%N; OQuery "a"; OTick 512%N; OQuery "a"] in
+  map (@ev_obs N N) (run N N (fun w _ => w) (fun _ => true) (svc_cfg OgmiosV6 1024000 10) ops (init 0%N 1%N 5%N)) =
+    [OAnswer "a" 5%N; ONone; ONone; OAnswer "a" 5%N; ONone; OAnswer "a" 7%N] /\
+  map (@ev_obs N N) (run N N (fun w _ => w) (fun _ => true) (svc_cfg Kupo 1024000 10) ops (init 0%N 1%N 5%N)) =
+    [OAnswer "a" 5%N; ONone; ONone; OAnswer "a" 7%N; ONone; OAnswer "a" 7%N].
+Proof. exact stale_within_memo. Qed.
+Print Assumptions C20_seq_stale_within_memo.
+
+(* the decision procedure run on the real adapters' answers along a run: trace = (operation, clock / tip / ledger of the
+   service after it, what the adapter returned); a ledger maps an address to the response case served for it *)
+Theorem C20_seq_oracle_sound : forall x iv mx sl w ops impl, seq_oracleb (x, iv, mx, sl, w, ops) impl = true ->
+  forall l1 a p io l2, trace sl w ops impl = l1 ++ (OQuery a, p, io) :: l2 ->
+  exists r, io = Some r /\
+    (faithful_report (p_w _ p) a r \/
+     exists p', In p' (map (fun t => snd (fst t)) l1) /\
+                (p_time _ p < p_time _ p' + c_memo_ttl (svc_cfg x iv mx))%N /\ faithful_report (p_w _ p') a r).
+Proof. exact seq_oracle_sound. Qed.
+Print Assumptions C20_seq_oracle_sound.
+
+Theorem C20_seq_faithful_report_means : forall w a r,
+  faithful_report w a r <->
+  exists x addr us ds outs, ledger_get a w = Some (x, addr, us, ds) /\ r = Ok outs /\
+    (Forall (fun u => wf_assets (u_assets u)) us -> Forall2 (faithful_any addr) us outs).
+Proof. intros. reflexivity. Qed.
+Print Assumptions C20_seq_faithful_report_means.
